@@ -427,9 +427,11 @@ def run_pipeline(ctx, cases, watchdog="4s"):
         bad = batch[k]
         rows[bad] = ["HANG" if lines and lines[-1].startswith("HANG") else "CRASH(rc=%d)" % rc, "match-does-not-terminate"]
         hangs.append(bad)
-        if len(hangs) > 5:
-            break
         pos += k + 1
+        if len(hangs) > 5:
+            for i in todo[pos:]:            # enough evidence: do not spend more watchdog time
+                rows[i] = ["NOTRUN(after %d hangs)" % len(hangs), "ok"]
+            break
     return mlines, mout, rows
 
 
